@@ -133,13 +133,18 @@ Definition has_cred (m : hmsg) := m_tp m =? msg_cred.
 Definition has_ack (m : hmsg) := m_tp m =? msg_ack.
 Definition has_proto (m : hmsg) := m_tp m =? msg_proto.
 
-(* readMsg(allowedTypes...) on a connection that will deliver [stream] and then EOF.
+(* readMsg(allowedTypes...) on a connection that will deliver [stream] and then either EOF or nothing at all.
+   [short] = what a read that wants more bytes than the peer sent ends in: [E_eof] (the peer closed: io.ReadFull
+   returns an error) or [E_blocked] (the peer is silent: the goroutine stays parked in conn.Read).
    [vt_ok body] = the generated UnmarshalVT of the selected message accepts the body (black box).
    Returns the message, the buffer and the rest of the stream. *)
-Definition read_msg (allowed : list N) (vt_ok : N -> bytes -> bool) (buf : hbuf) (stream : bytes)
+Definition E_blocked  : N := 27.  (* not a Go error: the goroutine never leaves conn.Read / conn.Write *)
+Definition E_deadline : N := 28.  (* ctx.Err() returned by the exported entry point *)
+
+Definition read_msg_e (short : N) (allowed : list N) (vt_ok : N -> bytes -> bool) (buf : hbuf) (stream : bytes)
   : outcome (hmsg * hbuf * bytes) :=
   do buf1 <- reslice_to (grow buf header_size) header_size;          (* slices.Grow(h.buf, 5)[:5] *)
-  if blen stream <? header_size then Err E_eof else                  (* io.ReadFull(h.conn, h.buf[:5]) *)
+  if blen stream <? header_size then Err short else                  (* io.ReadFull(h.conn, h.buf[:5]) *)
   do tp <- index stream 0;                                           (* h.buf[0] *)
   if negb (mem_N tp allowed) then Err E_unexpected else
   do b1 <- index stream 1; do b2 <- index stream 2; do b3 <- index stream 3; do b4 <- index stream 4;
@@ -147,12 +152,15 @@ Definition read_msg (allowed : list N) (vt_ok : N -> bytes -> bool) (buf : hbuf)
   if size_limit <? size then Err E_not_hs else
   do buf2 <- reslice_to (grow buf1 size) size;                       (* slices.Grow(h.buf, int(size))[:size] *)
   do rest <- slice_from stream header_size;
-  if blen rest <? size then Err E_eof else                           (* io.ReadFull(h.conn, h.buf[:size]) *)
+  if blen rest <? size then Err short else                           (* io.ReadFull(h.conn, h.buf[:size]) *)
   do body <- slice_to rest size;
   do rest' <- slice_from rest size;
   if (tp =? msg_cred) || (tp =? msg_ack) || (tp =? msg_proto) then
     if vt_ok tp body then Ok (mkMsg tp, buf2, rest') else Err E_unmarshal
   else Ok (mkMsg tp, buf2, rest').
+
+(* the peer sends [stream] and closes *)
+Definition read_msg := read_msg_e E_eof.
 
 (* dereferencing one of the optional parts of a message *)
 Definition need (present : bool) : outcome unit := if present then Ok tt else Panic PNil.
@@ -168,38 +176,127 @@ Record hs_env := mkEnv {
 
 Definition pool_buf : hbuf := mkBuf 0 1024.   (* handshakePool.New: make([]byte, 0, 1024); release: buf[:0] *)
 
-(* incomingHandshake: readMsg(cred); CheckCredential(msg.cred); write our credentials; readMsg(ack); msg.ack.Error *)
-Definition incoming_handshake (env : hs_env) (buf : hbuf) (stream : bytes) : outcome unit :=
-  do (m1, buf1, rest1) <- read_msg [msg_cred] (e_vt_ok env) buf stream;
+(* How the other end behaves apart from the bytes it sends: after [stream] it closes ([p_eof]) or stays silent
+   while keeping the connection alive; our writes succeed, fail, or park forever (the peer does not read and the
+   transport's window is full). *)
+Inductive wmode := WOk | WFail | WBlock.
+Record peer := mkPeer { p_eof : bool; p_write : wmode }.
+Definition short_read (p : peer) : N := if p_eof p then E_eof else E_blocked.
+Definition conn_write (p : peer) : outcome unit :=
+  match p_write p with WOk => Ok tt | WFail => Err E_eof | WBlock => Err E_blocked end.
+
+(* if err != nil { h.tryWriteErrAndClose(err); return }: ErrUnexpectedPayload closes silently; every other error
+   is first reported to the peer with writeAck — a write like any other, so it parks when the peer does not read.
+   (A goroutine that is already parked never gets here.) *)
+Definition or_report {A} (p : peer) (x : outcome A) : outcome A :=
+  match x with
+  | Err e => if (e =? E_unexpected) || (e =? E_blocked) then Err e
+             else match p_write p with WBlock => Err E_blocked | _ => Err e end
+  | o => o
+  end.
+
+(* incomingHandshake: readMsg(cred); CheckCredential(msg.cred); write our credentials; readMsg(ack); msg.ack.Error;
+   writeAck *)
+Definition incoming_handshake_p (env : hs_env) (p : peer) (buf : hbuf) (stream : bytes) : outcome unit :=
+  do (m1, buf1, rest1) <- or_report p (read_msg_e (short_read p) [msg_cred] (e_vt_ok env) buf stream);
   do _ <- need (has_cred m1);                          (* CheckCredential reads cred.Type / cred.Payload *)
-  if negb (e_cred_ok env) then Err E_cred else
-  if negb (e_write_ok env) then Err E_eof else
-  do (m2, buf2, rest2) <- read_msg [msg_ack] (e_vt_ok env) buf1 rest1;
+  do _ <- or_report p (if e_cred_ok env then Ok tt else Err E_cred);
+  do _ <- or_report p (conn_write p);
+  do (m2, buf2, rest2) <- or_report p (read_msg_e (short_read p) [msg_ack] (e_vt_ok env) buf1 rest1);
   do _ <- need (has_ack m2);                           (* msg.ack.Error *)
   let body2 := firstn (length rest1 - 5 - length rest2)%nat (skipn 5%nat rest1) in
-  if negb (e_ack_null env body2) then Err E_ack else
-  if negb (e_write_ok env) then Err E_eof else Ok tt.
+  if negb (e_ack_null env body2) then Err E_ack else   (* returned without a report *)
+  or_report p (conn_write p).
 
-(* outgoingHandshake after our credentials were written: readMsg(ack, cred); ack => error; CheckCredential;
+(* outgoingHandshake: write our credentials; readMsg(ack, cred); ack => error (no report); CheckCredential;
    writeAck; readMsg(ack); msg.ack.Error *)
-Definition outgoing_handshake (env : hs_env) (buf : hbuf) (stream : bytes) : outcome unit :=
-  if negb (e_write_ok env) then Err E_eof else
-  do (m1, buf1, rest1) <- read_msg [msg_ack; msg_cred] (e_vt_ok env) buf stream;
+Definition outgoing_handshake_p (env : hs_env) (p : peer) (buf : hbuf) (stream : bytes) : outcome unit :=
+  do _ <- or_report p (conn_write p);
+  do (m1, buf1, rest1) <- or_report p (read_msg_e (short_read p) [msg_ack; msg_cred] (e_vt_ok env) buf stream);
   if has_ack m1 then Err E_ack else
   do _ <- need (has_cred m1);
-  if negb (e_cred_ok env) then Err E_cred else
-  do (m2, buf2, rest2) <- read_msg [msg_ack] (e_vt_ok env) buf1 rest1;
+  do _ <- or_report p (if e_cred_ok env then Ok tt else Err E_cred);
+  do _ <- or_report p (conn_write p);
+  do (m2, buf2, rest2) <- or_report p (read_msg_e (short_read p) [msg_ack] (e_vt_ok env) buf1 rest1);
   do _ <- need (has_ack m2);
   let body2 := firstn (length rest1 - 5 - length rest2)%nat (skipn 5%nat rest1) in
   if negb (e_ack_null env body2) then Err E_ack else Ok tt.
 
-(* incomingProtoHandshake: readMsg(proto); msg.proto.Proto allowed?; answer *)
-Definition incoming_proto_handshake (env : hs_env) (buf : hbuf) (stream : bytes) : outcome unit :=
-  do (m1, buf1, rest1) <- read_msg [msg_proto] (e_vt_ok env) buf stream;
+(* incomingProtoHandshake: readMsg(proto); msg.proto.Proto allowed?; answer with an ack or a proto *)
+Definition incoming_proto_handshake_p (env : hs_env) (p : peer) (buf : hbuf) (stream : bytes) : outcome unit :=
+  do (m1, buf1, rest1) <- or_report p (read_msg_e (short_read p) [msg_proto] (e_vt_ok env) buf stream);
   do _ <- need (has_proto m1);                         (* msg.proto.Proto *)
   let body := firstn (length stream - 5 - length rest1)%nat (skipn 5%nat stream) in
-  if negb (e_proto_allowed env body) then Err E_proto else
-  if negb (e_write_ok env) then Err E_eof else Ok tt.
+  do _ <- or_report p (if e_proto_allowed env body then Ok tt else Err E_proto);
+  or_report p (conn_write p).
+
+(* outgoingProtoHandshake: write our proto; readMsg(ack, proto); an ack answers for old peers (Null => accepted),
+   a proto is accepted as it is; neither part set => ErrUnexpectedPayload (no dereference) *)
+Definition outgoing_proto_handshake_p (env : hs_env) (p : peer) (buf : hbuf) (stream : bytes) : outcome unit :=
+  do _ <- or_report p (conn_write p);
+  do (m1, buf1, rest1) <- or_report p (read_msg_e (short_read p) [msg_ack; msg_proto] (e_vt_ok env) buf stream);
+  let body := firstn (length stream - 5 - length rest1)%nat (skipn 5%nat stream) in
+  if has_ack m1 then (if e_ack_null env body then Ok tt else Err E_ack)
+  else if has_proto m1 then Ok tt else Err E_unexpected.
+
+(* the conversations against a peer that sends [stream] and closes; writes succeed or fail as the run says *)
+Definition eof_peer (env : hs_env) : peer := mkPeer true (if e_write_ok env then WOk else WFail).
+Definition incoming_handshake (env : hs_env) (buf : hbuf) (stream : bytes) : outcome unit :=
+  incoming_handshake_p env (eof_peer env) buf stream.
+Definition outgoing_handshake (env : hs_env) (buf : hbuf) (stream : bytes) : outcome unit :=
+  outgoing_handshake_p env (eof_peer env) buf stream.
+Definition incoming_proto_handshake (env : hs_env) (buf : hbuf) (stream : bytes) : outcome unit :=
+  incoming_proto_handshake_p env (eof_peer env) buf stream.
+Definition outgoing_proto_handshake (env : hs_env) (buf : hbuf) (stream : bytes) : outcome unit :=
+  outgoing_proto_handshake_p env (eof_peer env) buf stream.
+
+(* ---- the exported entry points: OutgoingHandshake / IncomingHandshake / OutgoingProtoHandshake /
+   IncomingProtoHandshake(ctx, conn, ...) ----
+   The conversation runs in its own goroutine; the caller selects on its completion and on ctx.Done():
+       go func() { defer close(done); res, err = inner(h, conn, ...) }()
+       select { case <-done: return res, err
+                case <-ctx.Done(): _ = conn.Close(); return ctx.Err() }
+   for a ctx that is eventually done (every caller passes a deadline).  What conn.Close() does to a parked
+   Read/Write is not relied upon; the kinds of connection the transports hand in differ exactly there. *)
+Inductive conn_kind :=
+| KCloseInterrupts   (* net.Pipe, TCP, libp2p-TLS, yamux stream: Close makes a pending Read/Write return *)
+| KCloseSendOnly     (* quic-go Stream: Close closes the send direction only, a pending Read stays parked *)
+| KCloseInert.       (* any other io.ReadWriteCloser: Close releases nothing *)
+
+Inductive run_result := Returned (o : outcome unit) | Hung.
+Definition class_of_run (r : run_result) : cls :=
+  match r with Returned o => class_of o | Hung => CHang end.
+Definition is_blocked (o : outcome unit) : bool := match o with Err e => e =? E_blocked | _ => false end.
+Definition is_deadline (r : run_result) : bool :=
+  match r with Returned (Err e) => e =? E_deadline | _ => false end.
+
+Definition entry_with_ctx (k : conn_kind) (inner : outcome unit) : run_result :=
+  if is_blocked inner then Returned (Err E_deadline) else Returned inner.
+
+(* NOT the code — the design "run the conversation inline, let context.AfterFunc(ctx, conn.Close) interrupt it":
+   it returns only if Close releases the parked call.  (On a send-only Close a parked Write may be released; the
+   refutation witness in Proofs parks in Read.)  Kept to show what the goroutine + select buys. *)
+Definition entry_inline_close_on_done (k : conn_kind) (inner : outcome unit) : run_result :=
+  if is_blocked inner then
+    match k with KCloseInterrupts => Returned (Err E_deadline) | _ => Hung end
+  else Returned inner.
+
+(* [which]: 0 IncomingHandshake, 1 OutgoingHandshake, 2 IncomingProtoHandshake, 3 OutgoingProtoHandshake *)
+Definition hs_inner (which : N) (env : hs_env) (p : peer) (buf : hbuf) (stream : bytes) : outcome unit :=
+  if which =? 0 then incoming_handshake_p env p buf stream
+  else if which =? 1 then outgoing_handshake_p env p buf stream
+  else if which =? 2 then incoming_proto_handshake_p env p buf stream
+  else outgoing_proto_handshake_p env p buf stream.
+Definition hs_entry (which : N) (k : conn_kind) (env : hs_env) (p : peer) (buf : hbuf) (stream : bytes) : run_result :=
+  entry_with_ctx k (hs_inner which env p buf stream).
+
+(* A stalled peer: it sends the first [n] bytes of [stream] and then nothing, keeping the connection alive. *)
+Definition stall_at (n : N) (stream : bytes) : bytes := firstn (N.to_nat n) stream.
+Definition stalled (w : wmode) : peer := mkPeer false w.
+
+(* the property over the OBSERVED classes of one entry point called once per stall point: every call came back
+   (no hang past the deadline) with nil or an error, and did not crash *)
+Definition spec_C11_stall (observed : list cls) : bool := forallb spec_C11 observed.
 
 (* ======================================================================================================== *)
 (* (2) commonspace/object/acl/list/keepidentity.go: the hand-written protobuf wire parser of the fast path    *)
